@@ -220,6 +220,57 @@ def rule_rankpairs(ctx):
     yield ob(R, g, "hierarchy._count_inversions:ties", len(advance) == 1 and counted_under, "a pair is in order only when a < b strictly; ties (a >= b) are counted as inversions")
 
 
+def _frame_map_ok(t, elem_pred):
+    """t == astype(hierarchy._round(<level intervals>, frame_size) / frame_size, int)"""
+    if not (t.op == "call" and call_name(t) == "astype" and len(t.a[1]) >= 2):
+        return False
+    q = t.a[1][0]
+    if not (q.op == "bin" and q.a[0] == "/" and q.a[2].op == "param" and q.a[2].a[0] == "frame_size"):
+        return False
+    r = q.a[1]
+    if not (r.op == "call" and call_name(r) == "hierarchy._round" and len(r.a[1]) == 2 and r.a[1][1] is q.a[2]):
+        return False
+    return elem_pred(r.a[1][0])
+
+
+def rule_framemap(ctx):
+    """Levels are numbered in the order the caller lists them (level k = k-th entry, 1-based) and every segment
+    boundary is mapped to a frame index by the same rounding _round(t, frame_size) / frame_size for both ends."""
+    R = "C17.FRAMEMAP"
+    ih = tm.param("intervals_hier")
+    # _lca
+    f = ctx.program.func("hierarchy._lca", R)
+    s = ctx.S.get(f.qual)
+    outer = [it for lid, (node, it) in sorted(s.loops.items()) if it.op == "call" and call_name(it) == "builtins.enumerate"]
+    need(len(outer) == 1, R, "_lca: level loop not found")
+    it = outer[0]
+    good = len(it.a[1]) == 2 and it.a[1][0] is ih and tm.is_const(it.a[1][1], 1)
+    yield ob(R, f, "hierarchy._lca:level-order", good, "levels are enumerate(intervals_hier, 1): depth = position in the caller's list" if good else "levels are enumerated over %s, not the caller's list in its own order" % tm.show(it, 3))
+    inner = [it2 for lid, (node, it2) in sorted(s.loops.items()) if it2 is not it]
+    need(len(inner) == 1, R, "_lca: segment loop not found")
+    okm = _frame_map_ok(inner[0], lambda x: x.op == "iter" and x.a[0] is ih)
+    yield ob(R, f, "hierarchy._lca:frame-map", okm, "segments -> frames by (_round(intervals, frame_size) / frame_size).astype(int)" if okm else "segment-to-frame mapping is %s" % tm.show(inner[0], 4))
+    # _meet
+    f = ctx.program.func("hierarchy._meet", R)
+    s = ctx.S.get(f.qual)
+    outer = [it for lid, (node, it) in sorted(s.loops.items()) if it.op == "call" and call_name(it) == "builtins.enumerate"]
+    need(len(outer) == 1, R, "_meet: level loop not found")
+    it = outer[0]
+    z = it.a[1][0] if it.a[1] else None
+    good = z is not None and z.op == "call" and call_name(z) == "builtins.zip" and len(z.a[1]) == 2 and z.a[1][0] is ih and z.a[1][1].op == "param" and z.a[1][1].a[0] == "labels_hier" and len(it.a[1]) == 2 and tm.is_const(it.a[1][1], 1)
+    yield ob(R, f, "hierarchy._meet:level-order", good, "levels are enumerate(zip(intervals_hier, labels_hier), 1)" if good else "levels are enumerated over %s" % tm.show(it, 3))
+    maps = [c.term for c in s.calls() if c.method == "astype" or c.callee == "astype"]
+    sl = [c for c in s.calls() if c.callee == "builtins.slice"]
+    need(sl, R, "_meet: frame slices not found")
+    srcs = set()
+    for c in sl:
+        for x in tm.walk(c.term):
+            if x.op == "call" and call_name(x) == "astype":
+                srcs.add(x)
+    okm = bool(srcs) and all(_frame_map_ok(x, lambda e: e.op in ("iter", "sub") and "intervals_hier" in tm.params_of(e)) for x in srcs)
+    yield ob(R, f, "hierarchy._meet:frame-map", okm, "segments -> frames by (_round(intervals, frame_size) / frame_size).astype(int), start and end alike" if okm else "segment-to-frame mapping is %s" % ("; ".join(tm.show(x, 4) for x in srcs) or "not an astype(int) of rounded times"))
+
+
 def rule_labelfold(ctx):
     """L-measure compares labels through util.index_labels (case-insensitive, shared with segment metrics)."""
     R = "C17.LABELFOLD"
@@ -260,7 +311,30 @@ def rule_evalparam(ctx):
             yield o
 
 
+def rule_stateless(ctx):
+    """Shared with C15.GLOBALSTATE: the hierarchy scorers keep no state between calls or between query frames
+    (no module-level table written in place, no mutable default), so a score is a function of its arguments only."""
+    from . import c15
+
+    for o in c15.rule_globalstate(ctx):
+        if o.construct.startswith("hierarchy.") or o.construct.startswith("module:hierarchy"):
+            o.rule = "C17.STATELESS"
+            yield o
+
+
+def rule_foldshared(ctx):
+    """Shared with C16.CASEFOLD: util.index_labels folds case by default and folds nothing else."""
+    from . import c16
+
+    for o in c16.rule_casefold(ctx):
+        if o.construct.startswith("util.index_labels") or o.construct.startswith("hierarchy."):
+            o.rule = "C17.LABELFOLD"
+            yield o
+
+
 RULES = [
+    ("C17.STATELESS", 10, rule_stateless),
+    ("C17.LABELFOLD", 4, rule_foldshared),
     ("C17.PARAMCHECK", 4, rule_paramcheck),
     ("C17.LITARGS", 6, rule_litargs),
     ("C17.SKIPGUARD", 5, rule_skipguard),
@@ -270,4 +344,5 @@ RULES = [
     ("C17.SQUEEZE", 1, rule_squeeze),
     ("C17.LABELFOLD", 2, rule_labelfold),
     ("C17.EVALPARAM", 6, rule_evalparam),
+    ("C17.FRAMEMAP", 4, rule_framemap),
 ]
